@@ -4,6 +4,7 @@ package main
 
 import (
 	"encoding/json"
+	"flag"
 	"fmt"
 	"regexp/syntax"
 	"strconv"
@@ -41,6 +42,10 @@ type Case struct {
 	AstCoq  string   `json:"ast_coq,omitempty"`
 	CtxCoq  string   `json:"ctx_coq,omitempty"`
 	AstML   string   `json:"ast_ml,omitempty"`
+	// metric queries (C08): the whole script as a term of model/Logql.v `script`
+	ScriptCoq string `json:"script_coq,omitempty"`
+	ScriptML  string `json:"script_ml,omitempty"`
+	Metric    bool   `json:"metric,omitempty"`
 	CtxML   string   `json:"ctx_ml,omitempty"`
 	SQL     []string `json:"sql,omitempty"` // one per run
 	Err     string   `json:"err,omitempty"` // parse | ast | plan | process | string
@@ -151,7 +156,16 @@ func dumpStage(y coqx.Syn, p *logql_parser.StrSelectorPipeline) string {
 			}
 			v := unq(&pp.Val)
 			path := y.None()
-			if arr, err := shared.JsonPathParamToArray(v); err == nil {
+			if p.Parser.Fn == "regexp" {
+				// oracle of ParserPlanner.parseRe (exported for the harness by the verif hook): ast.String() :: collectGroupNames
+				if re, names, err := clickhouse_planner.VerifParseRe(v); err == nil {
+					xs := []string{y.Str(re)}
+					for _, a := range names {
+						xs = append(xs, y.Str(a))
+					}
+					path = y.Some(y.List(xs))
+				}
+			} else if arr, err := shared.JsonPathParamToArray(v); err == nil {
 				var xs []string
 				for _, a := range arr {
 					xs = append(xs, y.Str(a))
@@ -222,7 +236,7 @@ func mkCtx(c Ctx) *shared.PlannerContext {
 }
 
 func run(c *Case) {
-	c.SQL, c.Err, c.ErrText, c.AstCoq, c.AstML = nil, "", "", "", ""
+	c.SQL, c.Err, c.ErrText, c.AstCoq, c.AstML, c.ScriptCoq, c.ScriptML = nil, "", "", "", "", "", ""
 	script, err := logql_parser.Parse(c.Query)
 	if err != nil {
 		c.Err, c.ErrText = "parse", err.Error()
@@ -242,7 +256,12 @@ func run(c *Case) {
 			}
 		}()
 		if script.StrSelector == nil {
-			fail("not a log query")
+			if !c.Metric {
+				fail("not a log query")
+			}
+			c.ScriptCoq = dumpScript(coqx.Coq, script)
+			c.ScriptML = dumpScript(coqx.ML, script)
+			return
 		}
 		c.AstCoq = dumpStrSel(coqx.Coq, script.StrSelector)
 		c.AstML = dumpStrSel(coqx.ML, script.StrSelector)
@@ -289,6 +308,7 @@ func run(c *Case) {
 }
 
 func main() {
+	mode := flag.String("mode", "log", "log: log queries (C07/C13/C14); metric: metric queries (C08)")
 	f := hx.ParseFlags()
 	out := hx.OpenOut(f.Out)
 	defer out.Close()
@@ -304,6 +324,18 @@ func main() {
 		return
 	}
 	r := hx.Rand(f.Seed)
+	if *mode == "metric" {
+		for i := 0; i < f.N; i++ {
+			q, class := genMetricQuery(r)
+			c := Case{ID: i, Query: q, Class: class, Runs: 1, Metric: true, Ctx: genMetricCtx(r)}
+			if r.Intn(10) == 0 {
+				c.Runs = 2
+			}
+			run(&c)
+			out.Put(c)
+		}
+		return
+	}
 	for i := 0; i < f.N; i++ {
 		q, class := genQuery(r)
 		from := int64(1700000000)*1e9 + int64(r.Intn(4*86400))*1e9 + int64(r.Intn(2))*int64(r.Intn(1e9))
